@@ -1,7 +1,7 @@
 \* the universe named in the property: 3 peers x 3 addresses (one IPv6) x 2 services, caches 2/2/1, 4 calls (thorough tier)
 SPECIFICATION Spec
 CONSTANTS NP = 3 NA = 3 NS = 2 V6 = {3} BlackAddr = {} BlackMid = {} IpCap = 2 IntroCap = 2 SvcCap = 1
-          Defects = {} MaxDepth = 4
+          NB = 0 IterBufs = {} Defects = {} MaxDepth = 4
 VIEW NoRetOp
 INVARIANT TypeOK
 INVARIANT LookupsAgree
